@@ -41,9 +41,19 @@ import (
 )
 
 // ---------- stub consensus helper: group signature / VRF / prove-root checks accept ----------
-type helper struct{}
+type helper struct {
+	forGroup bool // the group chain asks for its genesis group; the block chain's genesis stays without one
+}
 
-func (h *helper) GenerateGenesisInfo() []*types.GenesisInfo       { return nil }
+var genesisGroupId = []byte("c05-genesis-group-id-000000000001")
+
+func (h *helper) GenerateGenesisInfo() []*types.GenesisInfo {
+	if !h.forGroup {
+		return nil
+	}
+	g := types.Group{Id: genesisGroupId, PubKey: []byte{1}, Header: &types.GroupHeader{Extends: "c05"}}
+	return []*types.GenesisInfo{{Group: g}}
+}
 func (h *helper) VRFProve2Value(p *big.Int) *big.Int              { return p }
 func (h *helper) ProposalBonus() *big.Int                         { return big.NewInt(0) }
 func (h *helper) PackBonus() *big.Int                             { return big.NewInt(0) }
@@ -271,13 +281,19 @@ func boot() *world {
 	// the first start: insertGenesisBlock with every store write recorded (genesis can be created only
 	// once per process: a second creation collides with process-global state), then a normal start
 	w.rec.on = true
-	core.VerifBCGenesisFirst(&helper{}, w.wrapIndex)
+	theHelper := &helper{}
+	core.VerifBCGenesisFirst(theHelper, w.wrapIndex)
 	w.rec.on = false
 	w.genesisLog, w.rec.log = w.rec.log, nil
-	if err := core.VerifBCInit(&helper{}); err != nil {
+	if err := core.VerifBCInit(theHelper); err != nil {
 		panic(err)
 	}
 	core.VerifBCWrapStores(w.wrapIndex)
+	// the block fork of the sync path looks the verify group of every block up on the group chain
+	theHelper.forGroup = true
+	common.GlobalConf.SetString(common.ConfigSec, common.DefaultJoinedGroupDatabaseKey, "jgs0")
+	core.VerifGCInit(theHelper)
+	theHelper.forGroup = false
 	w.rawShared, _ = db.NewDatabase("")
 	w.g0 = readAll(w.rawShared)
 	w.g1 = readAll(w.stateLDB)
@@ -322,6 +338,7 @@ func (w *world) build(parent *types.BlockHeader, height, qn uint64, pv int64, sa
 		TotalQN:      parent.TotalQN + qn,
 		PreHash:      parent.Hash,
 		PreTime:      parent.CurTime,
+		GroupId:      genesisGroupId,
 		Transactions: make([]common.Hashes, 0),
 		EvictedTxs:   make([]common.Hash, 0),
 		RequestIds:   map[string]uint64{},
@@ -352,6 +369,7 @@ type history struct {
 	deliver []int
 	byHash  map[common.Hash]int
 	maxH    uint64
+	noFork  bool                 // scripted history: no sync sessions
 	txu     []*types.Transaction // transaction universe of this history; Coq id = index + 1
 	txIdx   map[common.Hash]int
 }
@@ -367,6 +385,9 @@ func (w *world) genHistory(r *hx.Rng, tier string, hi int) *history {
 	n := 5 + r.Intn(8)
 	if tier == "thorough" && r.Intn(4) == 0 {
 		n = 12 + r.Intn(8)
+		if r.Intn(3) == 0 {
+			n = 21 + r.Intn(4) // more blocks than the verifiedBlocks cache holds
+		}
 	}
 	for i := 1; i <= n; i++ {
 		// parent: mostly a recent block (long chains), sometimes any block (forks)
@@ -492,6 +513,72 @@ func (w *world) genHistory(r *hx.Rng, tier string, hi int) *history {
 			h.deliver = append(h.deliver, order[r.Intn(len(order))])
 		}
 	}
+	return h
+}
+
+// finish a universe: ids by hash rank, state-root ids by first appearance
+func (h *history) number(w *world) {
+	h.byHash[w.genesis.Hash] = 0
+	idx := make([]int, len(h.blocks))
+	for i := range idx {
+		idx[i] = i
+	}
+	sort.Slice(idx, func(a, b int) bool {
+		return new(big.Int).SetBytes(h.blocks[idx[a]].hdr.Hash.Bytes()).Cmp(new(big.Int).SetBytes(h.blocks[idx[b]].hdr.Hash.Bytes())) < 0
+	})
+	for rank, i := range idx {
+		h.blocks[i].id = uint64(rank + 1)
+	}
+	roots := map[common.Hash]uint64{}
+	for _, b := range h.blocks {
+		if _, ok := roots[b.hdr.StateTree]; !ok {
+			roots[b.hdr.StateTree] = uint64(len(roots) + 1)
+		}
+		b.rootId = roots[b.hdr.StateTree]
+	}
+}
+
+// scripted history for the verifiedBlocks cache (lru, 20 entries): L (child of genesis, carries T) is
+// verified and refused by weight -> cached; the main chain m1..m22 grows past it, m2 carrying T too;
+// re-delivered while still cached L is refused by weight again (the executed-check is skipped), after 20
+// more verifications it has been evicted and is refused by verifyBlock (T is executed on the chain).
+func (w *world) genCacheHistory(hi int) *history {
+	h := &history{byHash: map[common.Hash]int{}, txIdx: map[common.Hash]int{}, noFork: true}
+	h.blocks = append(h.blocks, &blk{hdr: w.genesis, parent: -1})
+	for i := 0; i < 2; i++ {
+		t := mkTx(hi, i)
+		h.txu = append(h.txu, t)
+		h.txIdx[t.Hash] = i
+	}
+	add := func(p int, qn uint64, pv int64, txs []*types.Transaction) int {
+		ph := h.blocks[p].hdr
+		b := w.build(ph, ph.Height+1, qn, pv, byte(len(h.blocks)), txs)
+		raw, err := types.MarshalBlock(b)
+		if err != nil {
+			panic(err)
+		}
+		nb := &blk{hdr: b.Header, raw: raw, parent: p}
+		for _, t := range b.Transactions {
+			nb.txs = append(nb.txs, h.txIdx[t.Hash])
+		}
+		h.byHash[b.Header.Hash] = len(h.blocks)
+		h.blocks = append(h.blocks, nb)
+		if b.Header.Height > h.maxH {
+			h.maxH = b.Header.Height
+		}
+		return len(h.blocks) - 1
+	}
+	m := add(0, 1, 2, nil)                            // b1 = m1
+	l := add(0, 0, 1, []*types.Transaction{h.txu[0]}) // b2 = L, lighter sibling of m1
+	h.deliver = append(h.deliver, m, l)
+	m = add(m, 1, 1, []*types.Transaction{h.txu[0]}) // b3 = m2 carries T
+	h.deliver = append(h.deliver, m, l)              // L again: still cached
+	for i := 0; i < 20; i++ {
+		m = add(m, 1, 1, nil)
+		h.deliver = append(h.deliver, m)
+	}
+	h.deliver = append(h.deliver, l) // L again: evicted by now
+	h.number(w)
 	return h
 }
 
@@ -865,6 +952,8 @@ func resCode(r types.AddBlockResult) uint64 {
 
 // ---------- one history ----------
 type opRec struct {
+	kind       string // "deliver", "fork" (one triggerOnChain call) or "aux" (fork bookkeeping, no chain write)
+	aux        string // Coq step of an aux op
 	bi         int
 	res        uint64
 	start, end int // slice of the write log
@@ -897,25 +986,24 @@ func (c *ctx) runHistory(r *hx.Rng, tier string, hi int) (string, interface{}) {
 	c.seq = fmt.Sprintf("seed-history %d: %s; deliver %v", hi, strings.Join(desc, " "), h.deliver)
 	ch := core.GetBlockChain()
 	var ops []*opRec
-	for di, bi := range h.deliver {
-		blk, err := types.UnMarshalBlock(h.blocks[bi].raw)
-		if err != nil {
-			panic(err)
-		}
-		op := &opRec{bi: bi, start: len(w.rec.log)}
+	opNo := 0
+	forkCause := func() string { return "other" } // why a fork switch stopped (set by the session)
+	// one chain operation (a delivery or one triggerOnChain call of the block fork) with all checks
+	runOp := func(kind string, bi int, label string, call func() uint64) *opRec {
+		di := opNo
+		opNo++
+		op := &opRec{kind: kind, bi: bi, start: len(w.rec.log)}
 		op.headBefore = h.byHash[ch.TopBlock().Hash]
 		old := ch.TopBlock()
-		var rr types.AddBlockResult
 		func() {
 			defer func() {
 				if e := recover(); e != nil {
-					res.Violate("C05/panic:AddBlockOnChain", fmt.Sprint(e), c.seq)
-					rr = types.AddBlockFailed
+					res.Violate("C05/panic:"+kind, fmt.Sprint(e), c.seq+"; "+label)
+					op.res = 4
 				}
 			}()
-			rr = ch.AddBlockOnChain(blk)
+			op.res = call()
 		}()
-		op.res = resCode(rr)
 		op.end = len(w.rec.log)
 		for _, wr := range w.rec.log[op.start:op.end] {
 			cc, a := h.classify(wr)
@@ -924,7 +1012,11 @@ func (c *ctx) runHistory(r *hx.Rng, tier string, hi int) (string, interface{}) {
 		op.obs = c.observe("quiescent")
 		nw := ch.TopBlock()
 		op.headAfter = h.byHash[nw.Hash]
-		where := fmt.Sprintf("%s; after delivery #%d (b%d)", c.seq, di, bi)
+		where := fmt.Sprintf("%s; after operation #%d (%s)", c.seq, di, label)
+		if kind == "fork" {
+			fh, fc, fl := core.VerifBCForkState()
+			where += fmt.Sprintf("; fork header height %d, current %d, latest height %d; head b%d -> b%d", fh, fc, fl.Height, op.headBefore, h.byHash[ch.TopBlock().Hash])
+		}
 		c.checkInv("quiescent", where)
 		// pool clause, volatile half: transactions of blocks this delivery took off the chain are pending
 		// again unless the new chain carries them; no transaction of the new chain is pending
@@ -965,7 +1057,7 @@ func (c *ctx) runHistory(r *hx.Rng, tier string, hi int) (string, interface{}) {
 			}
 		}
 		// weight: cumulative QN, then (prove value, hash) at the fork point
-		kind := "nochange"
+		move := "nochange"
 		if nw.Hash != old.Hash {
 			anc := h.ancestors(op.headAfter)
 			ext := false
@@ -974,14 +1066,18 @@ func (c *ctx) runHistory(r *hx.Rng, tier string, hi int) (string, interface{}) {
 					ext = true
 				}
 			}
-			kind = "extend"
+			move = "extend"
 			if !ext {
-				kind = "reorg-higher-qn"
+				move = "reorg-higher-qn"
 			}
 			if nw.TotalQN < old.TotalQN {
-				res.Violate("C05/weight:qn-decreased", fmt.Sprintf("head moved from TotalQN %d to %d", old.TotalQN, nw.TotalQN), where)
+				key := "C05/weight:qn-decreased"
+				if kind == "fork" {
+					key = "C05/weight:qn-decreased-fork-switch:" + forkCause()
+				}
+				res.Violate(key, fmt.Sprintf("head moved from TotalQN %d to %d", old.TotalQN, nw.TotalQN), where)
 			} else if nw.TotalQN == old.TotalQN && !ext {
-				kind = "reorg-tie"
+				move = "reorg-tie"
 				// children of the fork point on either side
 				pa := h.path(op.headBefore, op.headAfter)
 				oa, na := h.ancestors(op.headBefore), h.ancestors(op.headAfter)
@@ -997,13 +1093,148 @@ func (c *ctx) runHistory(r *hx.Rng, tier string, hi int) (string, interface{}) {
 					}
 				}
 				if oc >= 0 && nc >= 0 && lexLess(h.blocks[nc].hdr.ProveValue, h.blocks[nc].hdr.Hash, h.blocks[oc].hdr.ProveValue, h.blocks[oc].hdr.Hash) {
-					res.Violate("C05/weight:tie-break", "equal cumulative QN and the new branch has the lower (prove value, hash) at the fork point", where)
+					key := "C05/weight:tie-break"
+					if kind == "fork" {
+						key = "C05/weight:qn-decreased-fork-switch:" + forkCause()
+					}
+					res.Violate(key, "equal cumulative QN and the new branch has the lower (prove value, hash) at the fork point", where)
 				}
 			}
 		}
-		class := fmt.Sprintf("deliver:%s:%s", map[uint64]string{0: "succ", 1: "existed", 2: "qnless", 3: "nopre", 4: "failed"}[op.res], kind)
+		rn := map[uint64]string{0: "succ", 1: "existed", 2: "qnless", 3: "nopre", 4: "failed"}[op.res]
+		if kind == "fork" {
+			rn = map[uint64]string{0: "stopped", 1: "done", 4: "panic"}[op.res]
+		}
+		class := fmt.Sprintf("%s:%s:%s", kind, rn, move)
 		res.Count(class, fmt.Sprintf("h%d/d%d", hi, di), op.end > op.start)
 		ops = append(ops, op)
+		return op
+	}
+	auxOp := func(step string) {
+		ops = append(ops, &opRec{kind: "aux", aux: step, start: len(w.rec.log), end: len(w.rec.log)})
+	}
+	deliverOne := func(bi int) {
+		blk, err := types.UnMarshalBlock(h.blocks[bi].raw)
+		if err != nil {
+			panic(err)
+		}
+		runOp("deliver", bi, fmt.Sprintf("deliver b%d", bi), func() uint64 { return resCode(ch.AddBlockOnChain(blk)) })
+	}
+	// a sync session: block fork on a common ancestor taken from the chain now; the segment to a tip of
+	// the universe is fed to it after [stale] more deliveries (the local chain may move meanwhile); then
+	// triggerOnChain is called the way tryTriggerOnChain does (again until done or no progress)
+	type session struct {
+		header, tip, stale int
+	}
+	var sess *session
+	finishSession := func() {
+		se := sess
+		sess = nil
+		var seg []int
+		for x := se.tip; x != se.header && x >= 0; x = h.blocks[x].parent {
+			seg = append([]int{x}, seg...)
+		}
+		for _, x := range seg {
+			blk, _ := types.UnMarshalBlock(h.blocks[x].raw)
+			err := core.VerifBCForkAdd(blk)
+			auxOp(fmt.Sprintf("Fa %d %s", x, hx.CoqBool(err == nil)))
+			if err != nil {
+				break
+			}
+		}
+		forkCause = func() string {
+			_, cur, _ := core.VerifBCForkState()
+			for _, x := range seg {
+				if h.blocks[x].hdr.Height == cur {
+					if ch.QueryBlockByHash(h.blocks[x].hdr.Hash) != nil {
+						return "next-fork-block-already-on-chain"
+					}
+					for _, a := range h.ancestors(h.blocks[x].parent) {
+						for _, t := range h.blocks[a].txs {
+							for _, t2 := range h.blocks[x].txs {
+								if t == t2 {
+									return "next-fork-block-reuses-ancestor-tx"
+								}
+							}
+						}
+					}
+					if h.blocks[x].hdr.TotalQN < ch.TopBlock().TotalQN {
+						return "next-fork-block-lighter-than-pulled-in-orphan"
+					}
+				}
+			}
+			return "other"
+		}
+		_, _, flatest := core.VerifBCForkState()
+		if flatest.TotalQN >= ch.TopBlock().TotalQN { // tryTriggerOnChain's condition (block half)
+			paused := uint64(0)
+			for round := 0; round < 6; round++ {
+				op := runOp("fork", se.tip, fmt.Sprintf("fork switch header b%d tip b%d (triggerOnChain call %d)", se.header, se.tip, round+1), func() uint64 {
+					if core.VerifBCForkTriggerOnChain() {
+						return 1
+					}
+					return 0
+				})
+				_, cur, _ := core.VerifBCForkState()
+				if op.res == 1 || paused == cur {
+					break
+				}
+				paused = cur
+			}
+		}
+		core.VerifBCForkDestroy()
+		auxOp("Fd")
+	}
+	for _, bi := range h.deliver {
+		if sess == nil && !h.noFork && r.Intn(5) == 0 {
+			// header: the head or up to three blocks below it; tip: a universe block above the header
+			top := h.byHash[ch.TopBlock().Hash]
+			onChain := h.ancestors(top)
+			hd := top
+			for k := r.Intn(4); k > 0 && h.blocks[hd].parent >= 0; k-- {
+				hd = h.blocks[hd].parent
+			}
+			var tips, heavy []int
+			for x := range h.blocks {
+				if x != hd && contains(h.ancestors(x), hd) {
+					tips = append(tips, x)
+				}
+				if !contains(onChain, x) && h.blocks[x].hdr.TotalQN >= ch.TopBlock().TotalQN {
+					heavy = append(heavy, x)
+				}
+			}
+			tip := -1
+			if len(heavy) > 0 && r.Intn(10) < 7 {
+				// the usual case: a competing branch at least as heavy, forked on the real common ancestor
+				tip = heavy[r.Intn(len(heavy))]
+				for _, a := range h.ancestors(tip) {
+					if contains(onChain, a) {
+						hd = a
+						break
+					}
+				}
+				if r.Intn(4) == 0 && h.blocks[hd].parent >= 0 { // header below the real common ancestor
+					hd = h.blocks[hd].parent
+				}
+			} else if len(tips) > 0 {
+				tip = tips[r.Intn(len(tips))]
+			}
+			if tip >= 0 && core.VerifBCForkNew(h.blocks[hd].hdr.Hash) {
+				sess = &session{header: hd, tip: tip, stale: r.Intn(3)}
+				auxOp(fmt.Sprintf("Fn %d", hd))
+			}
+		}
+		if sess != nil {
+			if sess.stale == 0 {
+				finishSession()
+			} else {
+				sess.stale--
+			}
+		}
+		deliverOne(bi)
+	}
+	if sess != nil {
+		finishSession()
 	}
 	w.rec.on = false
 	log := w.rec.log
@@ -1036,7 +1267,11 @@ func (c *ctx) runHistory(r *hx.Rng, tier string, hi int) (string, interface{}) {
 			if m == n {
 				site = "complete"
 			}
-			where := fmt.Sprintf("%s; delivery #%d (b%d), crash after write %d/%d (%s)", c.seq, oi, op.bi, m, n, className[last.c])
+			what := "delivery"
+			if op.kind == "fork" {
+				what = "triggerOnChain call of a fork switch with tip"
+			}
+			where := fmt.Sprintf("%s; operation #%d (%s b%d), crash after write %d/%d (%s)", c.seq, oi, what, op.bi, m, n, className[last.c])
 			// the repair itself, recorded
 			w.setStores(c0, c1, c2)
 			w.rec.log, w.rec.on = nil, true
@@ -1095,11 +1330,15 @@ func (c *ctx) runHistory(r *hx.Rng, tier string, hi int) (string, interface{}) {
 				o := c.observe("restart")
 				c.checkInv("crash-"+site, wh)
 				top := core.GetBlockChain().TopBlock()
-				if hi2, ok := h.byHash[top.Hash]; !ok || !allowed[hi2] {
+				if hi2, ok := h.byHash[top.Hash]; op.kind == "deliver" && (!ok || !allowed[hi2]) {
 					res.Violate("C05/crash-head-off-path:"+site, fmt.Sprintf("recovered head is block %d, not on the path old head -> fork point -> new head", h.idOfHash(top.Hash)), wh)
 				}
 				res.Count(cls, fmt.Sprintf("h%d/o%d/m%d/j%d", hi, oi, m, j), m < n || j > 0)
-				op.crashSteps = append(op.crashSteps, fmt.Sprintf("Cr %d %d %s %s", op.bi, k, js, o.coq()))
+				if op.kind == "fork" {
+					op.crashSteps = append(op.crashSteps, fmt.Sprintf("Cf %d %s %s", k, js, o.coq()))
+				} else {
+					op.crashSteps = append(op.crashSteps, fmt.Sprintf("Cr %d %d %s %s", op.bi, k, js, o.coq()))
+				}
 			}
 		}
 	}
@@ -1123,7 +1362,14 @@ func (c *ctx) runHistory(r *hx.Rng, tier string, hi int) (string, interface{}) {
 	var steps []string
 	for _, op := range ops {
 		steps = append(steps, op.crashSteps...)
-		steps = append(steps, fmt.Sprintf("Dl %d %s %s %s", op.bi, hx.CoqN(op.res), coqPairs(op.cls), op.obs.coq()))
+		switch op.kind {
+		case "aux":
+			steps = append(steps, op.aux)
+		case "fork":
+			steps = append(steps, fmt.Sprintf("Ft %s %s %s", hx.CoqBool(op.res == 1), coqPairs(op.cls), op.obs.coq()))
+		default:
+			steps = append(steps, fmt.Sprintf("Dl %d %s %s %s", op.bi, hx.CoqN(op.res), coqPairs(op.cls), op.obs.coq()))
+		}
 	}
 	term := "(" + hx.CoqList(bl) + "%N,\n  " + hx.CoqList(steps) + ")"
 	return term, map[string]interface{}{"history": c.seq, "steps": len(steps)}
@@ -1226,6 +1472,12 @@ func main() {
 	nh := a.N
 	{
 		term, js := w.genesisPass(res)
+		cs.Add(term, js)
+	}
+	{
+		h := w.genCacheHistory(100000)
+		c := &ctx{w: w, h: h, res: res}
+		term, js := c.runHistory(rng.Fork(), a.Tier, 100000)
 		cs.Add(term, js)
 	}
 	for hi := 0; hi < nh; hi++ {
